@@ -18,8 +18,76 @@ type listFacts struct {
 	ranged string // canonical ranged expression
 	elem   string // canonical per-element expression with the element named P
 	sep    string
+	joined string // callee that produces the joined string in this function ("strings.Join(" or the helper)
 	ok     bool
 	why    string
+}
+
+// listAccessorFactsP also recognises an accessor that hands its list and a per-element function to a
+// function of the package that has the list shape itself (out[i] = render(list[i]); join).
+func listAccessorFactsP(p *packages.Package, fd *ast.FuncDecl) listFacts {
+	info := p.TypesInfo
+	f := listAccessorFacts(info, fd)
+	if f.ok {
+		f.joined = "strings.Join("
+		return f
+	}
+	funcs := pkgFuncs(p)
+	var call *ast.CallExpr
+	var hf listFacts
+	var helper *ast.FuncDecl
+	ast.Inspect(fd.Body, func(n ast.Node) bool {
+		x, ok := n.(*ast.CallExpr)
+		if !ok || call != nil || len(x.Args) != 2 {
+			return true
+		}
+		fn := calleeFunc(info, x)
+		if fn == nil || funcs[fn] == nil || funcs[fn] == fd || funcs[fn].Recv != nil {
+			return true
+		}
+		if h := listAccessorFacts(info, funcs[fn]); h.ok && h.ranged == "ARG0" && h.elem == "ARG1(P)" {
+			call, hf, helper = x, h, funcs[fn]
+		}
+		return true
+	})
+	if call == nil {
+		return f
+	}
+	d := newDT(info)
+	var at ast.Stmt
+	for _, s := range fd.Body.List {
+		if s.Pos() <= call.Pos() && call.End() <= s.End() {
+			at = s
+		}
+	}
+	env := d.envBefore(seedEnv(d, fd), fd.Body.List, at)
+	out := listFacts{ranged: d.canon(env, call.Args[0]), sep: hf.sep, joined: "template." + helper.Name.Name + "("}
+	switch r := ast.Unparen(call.Args[1]).(type) {
+	case *ast.SelectorExpr:
+		sel := info.Selections[r]
+		if sel == nil || sel.Kind() != types.MethodExpr {
+			out.why = "the per-element function is not a method expression or a function literal"
+			return out
+		}
+		out.elem = "P." + r.Sel.Name + "<(" + shortType(sel.Recv()) + ")." + r.Sel.Name + ">()"
+	case *ast.FuncLit:
+		if r.Type.Params.NumFields() != 1 || len(r.Type.Params.List[0].Names) != 1 || len(r.Body.List) != 1 {
+			out.why = "the per-element function literal is not a single return"
+			return out
+		}
+		rs, ok := r.Body.List[0].(*ast.ReturnStmt)
+		if !ok || len(rs.Results) != 1 {
+			out.why = "the per-element function literal is not a single return"
+			return out
+		}
+		env.env[info.Defs[r.Type.Params.List[0].Names[0]]] = "P"
+		out.elem = d.canon(env, rs.Results[0])
+	default:
+		out.why = "the per-element function is not a method expression or a function literal"
+		return out
+	}
+	out.ok = true
+	return out
 }
 
 func listAccessorFacts(info *types.Info, fd *ast.FuncDecl) listFacts {
@@ -171,7 +239,7 @@ func ruleAccessors(c *Ctx, r *Repo, r1, r2, r3 string) {
 			continue
 		}
 		c.Func(funcKey(tp, fd))
-		f := listAccessorFacts(info, fd)
+		f := listAccessorFactsP(tp, fd)
 		switch {
 		case !f.ok:
 			c.Fail(r1, l.fn+"|shape", r.Pos(fd.Pos()), l.fn+": "+f.why)
@@ -184,7 +252,8 @@ func ruleAccessors(c *Ctx, r *Repo, r1, r2, r3 string) {
 	// ReturnArgTypeList parentheses
 	if fd := FuncDecl(tp, "Method.ReturnArgTypeList"); fd != nil {
 		paths := tailPaths(info, fd)
-		ok := len(paths) == 2
+		joined := listAccessorFactsP(tp, fd).joined
+		ok := len(paths) == 2 && joined != ""
 		for _, p := range paths {
 			multi, has := p.atom("builtin.len(RECV.Returns) > 1")
 			if !has || p.Exit != "return" {
@@ -192,9 +261,9 @@ func ruleAccessors(c *Ctx, r *Repo, r1, r2, r3 string) {
 				continue
 			}
 			if multi {
-				ok = ok && strings.HasPrefix(p.Ret[0], `fmt.Sprintf("(%s)", strings.Join(`)
+				ok = ok && strings.HasPrefix(p.Ret[0], `fmt.Sprintf("(%s)", `+joined)
 			} else {
-				ok = ok && strings.HasPrefix(p.Ret[0], "strings.Join(")
+				ok = ok && strings.HasPrefix(p.Ret[0], joined)
 			}
 		}
 		c.Check(ok, r1, "Method.ReturnArgTypeList|parentheses", r.Pos(fd.Pos()), "parenthesised iff more than one result", "ReturnArgTypeList is not parenthesised exactly when there is more than one result")
@@ -204,28 +273,36 @@ func ruleAccessors(c *Ctx, r *Repo, r1, r2, r3 string) {
 		c.Fail(r2, "argCallListSlice|missing", "template/method.go", "argCallListSlice not found")
 	} else {
 		c.Func(funcKey(tp, fd))
-		f := listAccessorFacts(info, fd)
+		f := listAccessorFactsP(tp, fd)
 		// the prefix decision table: value of `end` when the slice is taken
 		d := newDT(info)
 		d.paths = nil
+		// the statement in which the sub-slice of the parameters is taken, and the statements before it
 		var prefix []ast.Stmt
-		var sliceStmt *ast.AssignStmt
+		var sliceStmt ast.Stmt
+		var sliceExpr *ast.SliceExpr
 		for _, s := range fd.Body.List {
-			if as, ok := s.(*ast.AssignStmt); ok && len(as.Rhs) == 1 {
-				if _, ok := as.Rhs[0].(*ast.SliceExpr); ok {
-					sliceStmt = as
-					break
+			ast.Inspect(s, func(n ast.Node) bool {
+				if se, ok := n.(*ast.SliceExpr); ok && sliceExpr == nil {
+					sliceExpr = se
+					sliceStmt = s
 				}
+				return true
+			})
+			if sliceStmt != nil {
+				break
 			}
 			prefix = append(prefix, s)
 		}
 		okTable := sliceStmt != nil
 		if okTable {
-			d.stmts(seedEnv(d, fd), append(prefix, sliceStmt), func(p *dtPath) { d.finish(p, "end") })
-			sl := objOf(info, sliceStmt.Lhs[0].(*ast.Ident))
+			d.stmts(seedEnv(d, fd), prefix, func(p *dtPath) { d.finish(p, "end") })
 			for _, p := range d.paths {
+				if p.Exit != "end" {
+					continue
+				}
+				got := d.canon(p, sliceExpr)
 				neg, hasNeg := p.atom("ARG1 < 0")
-				got := p.env[sl]
 				endv := "ARG1"
 				if hasNeg && neg {
 					endv = "builtin.len(RECV.Params)"
